@@ -1,6 +1,7 @@
 package main
 
 import (
+	"verif.local/mc/harness/c12"
 	"verif.local/mc/harness/c10"
 	"verif.local/mc/harness/c07"
 	"verif.local/mc/harness/c08"
@@ -11,6 +12,7 @@ import (
 )
 
 func init() {
+	register("C12", "model_checking", c12.Run)
 	register("C10", "exploration", c10.Run)
 	register("C09", "exploration", c09.Run)
 	register("C08", "fault_enumeration", c08.Run)
